@@ -232,8 +232,31 @@ class PythonASTOptimizer(ast.NodeTransformer):
                 body=new_orelse,
                 orelse=[],
             )
-        else:
+        elif isinstance(new_node.test, (ast.Constant, ast.Name)) or (
+            isinstance(new_node.test, (ast.BoolOp, ast.Compare, ast.UnaryOp))
+            and all(
+                isinstance(
+                    n,
+                    (
+                        ast.BoolOp,
+                        ast.Compare,
+                        ast.UnaryOp,
+                        ast.Constant,
+                        ast.Name,
+                        ast.boolop,
+                        ast.unaryop,
+                        ast.Is,
+                        ast.IsNot,
+                        ast.expr_context,
+                    ),
+                )
+                for n in ast.walk(new_node.test)
+            )
+        ):
             return None
+        else:
+            # Both branches are empty, but evaluating the test may have side effects
+            return ast.copy_location(ast.Expr(value=new_node.test), new_node)
 
         return ast.copy_location(ifstmt, new_node)
 
